@@ -44,3 +44,9 @@ func (tb *Table) VerifC13PartCount() int {
 	defer tb.partsLock.Unlock()
 	return len(tb.parts)
 }
+
+// VerifC13ItemLayout returns the constants isDeleted reads an index item with: the three namespace prefixes that carry
+// series ids, the key/value separator of a key->tsid item and the length of a marshaled tsid.
+func VerifC13ItemLayout() (nsKeyToTSID, nsTSIDToKey, nsTagToTSIDs, kvSeparator byte, tsidLen int) {
+	return nsPrefixKeyToTSID, nsPrefixTSIDToKey, nsPrefixTagToTSIDs, kvSeparatorChar, MarshaledUint64Len
+}
